@@ -30,7 +30,7 @@ LEX = [
     "\n", " ", "\t", "{|", ":{|", "|}", "|-", "|", "!", "|+", "||", "|!", "!!",
     "=", "== ", "===", "*", "#", ";", ":", "----", "''", "'''''", "[[", "]]", "[", "]",
     "http://a", "https://b.c/d?e=f", "//a", "mailto:a@b", "ftp://a", "irc://a", "news:a",
-    "__TOC__", "__NOTOC__", "_", "&amp;", "&#x41;", "&#65;", "&#;", "&", "<b>", "</b>", "<br/>",
+    "__TOC__", "__NOTOC__", "_", "&amp;", "&#x41;", "&#65;", "&#;", "&", "&#0;", "&#xD800;", "&#x110000;", "&#xEBAD;", "&#127;", "&#55357;&#56832;", "<b>", "</b>", "<br/>",
     "<!--x-->", "<!--", "-->", "<", ">", "/", "\x7fUNIQ-abc-1-0f-QINU\x7f", "\x7f", "UNIQ-",
     EBAD, "\x00", "a", "Z9", "é", "\U0001d518", "-", "+", ".", "\r",
 ]
